@@ -190,6 +190,22 @@ var fixedGroupSources = []string{
 	"replace all @/(a+)(b+)/ with _2 _1",
 }
 
+// process bodies of 1..9 top-level statements (transform and predicate): whatever evaluating a body does to the
+// statement list of the shared program happens in every goroutine that runs it
+func processBodySources() []string {
+	out := []string{}
+	for n := 1; n <= 9; n++ {
+		stmts := []string{}
+		for i := 0; i < n-1; i++ {
+			stmts = append(stmts, fmt.Sprintf("set v%d to matchLength + %d", i, i))
+		}
+		body := strings.Join(stmts, " ")
+		out = append(out, "set t to transform "+body+" return match + matchLength end\nreplace all at least 1 in 'a', 'b' with '<' t '>'")
+		out = append(out, "set p to pattern at least 1 in 'a', 'b', 'c' begin "+body+" return matchLength > 1 end\nfind all p")
+	}
+	return out
+}
+
 var fixedPlainSources = []string{
 	"find all 'a'",
 	"find all in 'a', 'b', 'c', 'd', 'ab', 'ba', 'ca', 'cb', 'x', 'y', 'z', '1'",
@@ -451,6 +467,9 @@ func main() {
 		add(s, true)
 	}
 	for _, s := range fixedPlainSources {
+		add(s, false)
+	}
+	for _, s := range processBodySources() {
 		add(s, false)
 	}
 	for i := 0; i < *nprog; i++ {
